@@ -611,10 +611,14 @@ pub fn beyond_f64(text: &str) -> bool {
                 while i < cs.len() && cs[i].is_ascii_digit() { i += 1; }
                 dec = i - f;
             }
-            let ccy: String = if st >= 3 && cs[st - 3..st].iter().all(|c| c.is_ascii_uppercase()) { cs[st - 3..st].iter().collect() } else { String::new() };
-            // a D / C indicator may stand between currency and amount (34F)
-            let ccy = if ccy.is_empty() && st >= 4 && cs[st - 4..st - 1].iter().all(|c| c.is_ascii_uppercase()) { cs[st - 4..st - 1].iter().collect() } else { ccy };
-            let prec = if ccy.is_empty() { 2 } else { iso_decimals(&ccy).max(2) };
+            // the currency stands directly in front of the amount, or one D / C indicator earlier (34F): take the larger precision
+            let mut prec = 2;
+            for back in [0usize, 1] {
+                if st >= 3 + back && cs[st - 3 - back..st - back].iter().all(|c| c.is_ascii_uppercase()) {
+                    let ccy: String = cs[st - 3 - back..st - back].iter().collect();
+                    prec = prec.max(iso_decimals(&ccy));
+                }
+            }
             if int_d + dec.max(prec) > 15 && int_d >= 9 {
                 return true;
             }
